@@ -9,7 +9,7 @@ import uni_common as U
 
 PROPERTY = "C07"
 LEAN_MODULES = ["Proofs.C07", "Proofs.C07.Round", "Proofs.C07.Wei", "Proofs.C07.Maximal", "Proofs.C07.Token", "Proofs.C07.RoundTrip",
-                "Proofs.C07.RoundTripMarket"]
+                "Proofs.C07.RoundTripMarket", "Proofs.C07.Ticks"]
 RULE = ("random (sqrt price, tick pair, decimals in {6,8,18}^2, offered amounts 0..1e12 tokens) with a boundary stream (price exactly on a "
         "range bound, ranges touching MIN/MAX tick, the full range at every spacing, ranges and prices beyond |tick| = 2^19, equal ticks, reversed "
         "ticks, zero amounts) and a magnitude stream (1e9..1e12 tokens of an 18-decimal token into 1..200-tick ranges, where liquidity has 36..50 "
